@@ -58,6 +58,10 @@ def _run_chunk(exe, lines, env, is_model, timeout):
             break
         # died on op i+len(got)
         out.extend(got)
+        if rc == 97 and not is_model:      # the harness watchdog (_limit_ms) fired
+            out.append('{"timeout":true}')
+            i = len(out)
+            continue
         kind = "model-crash" if is_model else "crash"
         m = re.search(r"(ERROR: \w+Sanitizer: [^\n]*|runtime error: [^\n]*|SUMMARY: [^\n]*)", errtxt)
         out.append(json.dumps({kind: (m.group(1) if m else ("rc=%s %s" % (rc, errtxt[-300:])))[:400]}))
@@ -65,7 +69,7 @@ def _run_chunk(exe, lines, env, is_model, timeout):
     return out
 
 
-def run_lines(exe, lines, is_model=False, nproc=None, timeout=3600, env_extra=None):
+def run_lines(exe, lines, is_model=False, nproc=None, timeout=3600, env_extra=None, chunk_min=50):
     if not lines:
         return []
     env = dict(os.environ)
@@ -75,7 +79,8 @@ def run_lines(exe, lines, is_model=False, nproc=None, timeout=3600, env_extra=No
         env.update(env_extra)
     nproc = nproc or NCPU
     n = len(lines)
-    nchunks = max(1, min(nproc, n // 50 + 1))
+    # heavy lines (megabyte payloads) are spread one per process: pass chunk_min=1
+    nchunks = max(1, min(nproc, n // chunk_min + 1))
     size = (n + nchunks - 1) // nchunks
     chunks = [lines[k:k + size] for k in range(0, n, size)]
     with ThreadPoolExecutor(len(chunks)) as ex:
@@ -106,22 +111,24 @@ class Ctx:
     def count(self, key, n=1):
         self.dist[key] = self.dist.get(key, 0) + n
 
-    def real(self, ops, **kw):
-        return [json.loads(x) for x in run_lines(self.hx, [opline(o, a) for o, a in ops], **kw)]
+    def real(self, ops, kind="asan", **kw):
+        """kind: which build of the working tree executes the lines (asan by default; "plain" for megabyte
+        payloads, where ASan's allocator makes the library's realloc-per-block sinks take seconds)"""
+        return [json.loads(x) for x in run_lines(self.builds[kind]["hx"], [opline(o, a) for o, a in ops], **kw)]
 
     def model(self, ops, **kw):
         if not self.model_ok:
             return [{"error": "model-unavailable"}] * len(ops)
         return [json.loads(x) for x in run_lines(MODEL_EXE, [opline(o, a) for o, a in ops], is_model=True, **kw)]
 
-    def compare(self, ops, p_check=None, nontrivial=None, canon=None, sample_every=None):
+    def compare(self, ops, p_check=None, nontrivial=None, canon=None, sample_every=None, chunk_min=50, kind="asan"):
         """Run ops on both sides, diff, apply the direct property oracle to the real results."""
         ops = list(ops)
         if not ops:
             return [], []
         with ThreadPoolExecutor(2) as ex:
-            fr = ex.submit(self.real, ops)
-            fm = ex.submit(self.model, ops)
+            fr = ex.submit(self.real, ops, kind=kind, chunk_min=chunk_min)
+            fm = ex.submit(self.model, ops, chunk_min=chunk_min)
             real, model = fr.result(), fm.result()
         self.evaluations += len(ops)
         step = sample_every or max(1, len(ops) // 3)
